@@ -165,7 +165,7 @@ func init() {
 	register(&Prop{
 		ID:         "C08",
 		Title:      "A request that fails leaves no trace",
-		Decided:    "two-state typestate (clean → dirty on the first state write) over every core function that writes table/index state and can fail, and over every client data method: (R1) in core, no error return and no call that may raise the documented interpreter panic is reachable after a write to Table.Data/SortedKeys/index.refs/index.sortedKeys, a call that may write them, or a call that mutates in place a map obtained from Table.Data – i.e. all fallible steps (key derivation, condition, expression evaluation, index-key derivation for every index) precede the first write; (R2) Language.Update hands the caller's item to a mutating callee (Environment.Apply) only on the success edges of every error test and nothing fails afterwards; Native.Update calls the updater only when found; (R3) in the client data methods every fallible call that precedes the core mutator (failure test, placeholder validation, table lookup, key derivation) is tested and the mutator lies on its nil edge, and no unrelated error is returned after the mutator; (R4) the error of a core mutator always reaches the method's error result; (R5) the working copy an update is applied to is a shallow copy (a new map sharing the *types.Item values with the stored item), so all-or-nothing also needs that no engine function writes through a *types.Item it did not just allocate – an in-place write reaches the stored item before the later steps can fail.",
+		Decided:    "two-state typestate (clean → dirty on the first state write) over every core function that writes table/index state and can fail, and over every client data method: (R1) in core, no error return and no call that may raise the documented interpreter panic is reachable after a write to Table.Data/SortedKeys/index.refs/index.sortedKeys, a call that may write them, or a call that mutates in place a map obtained from Table.Data – i.e. all fallible steps (key derivation, condition, expression evaluation, index-key derivation for every index) precede the first write; (R2) Language.Update hands the caller's item to a mutating callee (Environment.Apply) only on the success edges of every error test and nothing fails afterwards; Native.Update calls the updater only when found; (R3) in the client data methods every fallible call that precedes the core mutator (failure test, placeholder validation, table lookup, key derivation) is tested and the mutator lies on its nil edge, and no unrelated error is returned after the mutator; (R4) the error of a core mutator always reaches the method's error result; (R5) the working copy an update is applied to is a shallow copy (a new map sharing the *types.Item values with the stored item), so all-or-nothing also needs that no engine function writes through a *types.Item it did not just allocate – an in-place write reaches the stored item before the later steps can fail; (R6) the shape of every request of a batch is validated before any request is executed (= C16.R7).",
 		NotDecided: "state equality is never computed: the argument is that no write happened, which is stronger. Batch calls are sequences of single-item calls (C19) and may have applied a prefix. Table-management calls are outside the statement. Mutation performed by user-supplied native updaters before they panic is outside scope.",
 		Assumes:    []string{"a function value of type interpreter.MatcherFunc supplied by the user does not mutate the item it is given", "SDK/stdlib calls do not mutate minidyn state"},
 		Rules: []RuleDef{
@@ -174,6 +174,7 @@ func init() {
 			{ID: "R3", Desc: "client data methods: fallible pre-steps are tested and dominate the core mutator; no unrelated failure after it", Run: c08R3},
 			{ID: "R4", Desc: "errors of core mutators are propagated, never dropped", Run: c08R4},
 			{ID: "R5", Desc: "attribute values are never modified in place: no store through a *types.Item that is not freshly built (what makes the shallow working copies sufficient)", Run: c08R5},
+			{ID: "R6", Desc: "a batch with a malformed request is rejected by the validator, which runs before the first request is executed (= C16.R7): nothing of a rejected batch is applied", Run: aliasRule("R6", c16R7, nil)},
 		},
 	})
 }
